@@ -31,6 +31,7 @@ var sentinels = map[error]string{
 	sarama.ErrOutOfBrokers:       "ErrOutOfBrokers",
 	sarama.ErrMessageTooLarge:    "ErrMessageTooLarge",
 	sarama.ErrShuttingDown:       "ErrShuttingDown",
+	sarama.ErrInvalidPartition:   "ErrInvalidPartition",
 }
 
 func gerr(e error) string {
@@ -219,16 +220,20 @@ func (x errEnc) Encode() ([]byte, error) { return nil, x.e }
 func (x errEnc) Length() int             { return 0 }
 
 type fixedHash struct {
-	sum  uint32
-	werr error
+	sum   uint32
+	werr  error
+	calls []string
 }
 
-func (h *fixedHash) Write(p []byte) (int, error) { return len(p), h.werr }
-func (h *fixedHash) Sum(b []byte) []byte         { return b }
-func (h *fixedHash) Reset()                      {}
-func (h *fixedHash) Size() int                   { return 4 }
-func (h *fixedHash) BlockSize() int              { return 1 }
-func (h *fixedHash) Sum32() uint32               { return h.sum }
+func (h *fixedHash) Write(p []byte) (int, error) {
+	h.calls = append(h.calls, "HA_write")
+	return len(p), h.werr
+}
+func (h *fixedHash) Sum(b []byte) []byte { return b }
+func (h *fixedHash) Reset()              { h.calls = append(h.calls, "HA_reset") }
+func (h *fixedHash) Size() int           { return 4 }
+func (h *fixedHash) BlockSize() int      { return 1 }
+func (h *fixedHash) Sum32() uint32       { return h.sum }
 
 var _ hash.Hash32 = (*fixedHash)(nil)
 
@@ -258,6 +263,8 @@ func runC17(r *rand.Rand, n int, w *writer) {
 		}
 		got, gerrv := p.Partition(msg, np)
 		in := []interface{}{h.sum, h.werr != nil, ref, np, encErr != nil}
+		w.add("hash_partition_calls", fmt.Sprintf("(hash_calls_ok (hash_partition_calls %d false 0 ENil %s %s %s %d) %s %s %s)", np, gerr(encErr), gerr(h.werr), cf.Bool(ref), h.sum,
+			cf.List(h.calls), cf.Z(int64(got)), gerr(gerrv)), in, true)
 		w.add("hash_partition", fmt.Sprintf("(zerr_eqb (hash_partition %d false 0 ENil %s %s %s %d) (%s, %s))", np, gerr(encErr), gerr(h.werr), cf.Bool(ref), h.sum,
 			cf.Z(int64(got)), gerr(gerrv)), in, true)
 		if encErr == nil && h.werr == nil {
@@ -278,6 +285,144 @@ func runC17(r *rand.Rand, n int, w *writer) {
 		got, e := mp.Partition(&sarama.ProducerMessage{Partition: want}, 7)
 		w.add("manual_partition", fmt.Sprintf("(zerr_eqb (manual_partition 7 %s) (%s, %s))", cf.Z(int64(want)), cf.Z(int64(got)), gerr(e)), []interface{}{want}, true)
 	}
+}
+
+// stubs for topicProducer.partitionMessage
+type stubClient struct {
+	sarama.Client
+	all, writable       []int32
+	allErr, writableErr error
+}
+
+func (c *stubClient) Partitions(string) ([]int32, error)         { return c.all, c.allErr }
+func (c *stubClient) WritablePartitions(string) ([]int32, error) { return c.writable, c.writableErr }
+
+type stubPartitioner struct {
+	requires bool
+	choice   int32
+	err      error
+}
+
+func (p *stubPartitioner) Partition(*sarama.ProducerMessage, int32) (int32, error) {
+	return p.choice, p.err
+}
+func (p *stubPartitioner) RequiresConsistency() bool { return p.requires }
+
+type stubDynPartitioner struct {
+	stubPartitioner
+	msgRequires bool
+}
+
+func (p *stubDynPartitioner) MessageRequiresConsistency(*sarama.ProducerMessage) bool {
+	return p.msgRequires
+}
+
+func z32s(v []int32) string {
+	o := make([]int64, len(v))
+	for i, x := range v {
+		o[i] = int64(x)
+	}
+	return cf.ZList(o)
+}
+
+func runC17PartitionMessage(r *rand.Rand, n int, w *writer) {
+	lists := [][]int32{nil, {0}, {0, 1, 2}, {5, 7}, {3, 1, 4, 1, 5}}
+	for i := 0; i < n; i++ {
+		c := &stubClient{all: lists[r.Intn(len(lists))], writable: lists[r.Intn(len(lists))]}
+		if r.Intn(8) == 0 {
+			c.allErr = idErr(1)
+		}
+		if r.Intn(8) == 0 {
+			c.writableErr = idErr(2)
+		}
+		sp := stubPartitioner{requires: r.Intn(2) == 0, choice: int32(r.Intn(7) - 1)}
+		if r.Intn(8) == 0 {
+			sp.err = idErr(3)
+		}
+		dyn, msgReq := r.Intn(2) == 0, r.Intn(2) == 0
+		var p sarama.Partitioner = &sp
+		if dyn {
+			p = &stubDynPartitioner{sp, msgReq}
+		}
+		msg := &sarama.ProducerMessage{Topic: "t", Partition: -7}
+		err := func() (err error) {
+			defer func() {
+				if rec := recover(); rec != nil {
+					err = fmt.Errorf("panic: %v", rec) // printed as (EUnknown): the case does not evaluate and is reported
+				}
+			}()
+			return sarama.VerifDecgenPartitionMessage(p, c, msg)
+		}()
+		term := fmt.Sprintf("(gerr_z_eqb (partition_message_run partition_source partition_pick %s %s %s %s %s %s %s %s %s (-7)) (%s, %s))",
+			cf.Bool(dyn), cf.Bool(msgReq), cf.Bool(sp.requires), z32s(c.all), gerr(c.allErr), z32s(c.writable), gerr(c.writableErr), cf.Z(int64(sp.choice)), gerr(sp.err),
+			gerr(err), cf.Z(int64(msg.Partition)))
+		w.add("partition_message", term, []interface{}{dyn, msgReq, sp.requires, c.all, c.allErr != nil, c.writable, c.writableErr != nil, sp.choice, sp.err != nil}, true)
+	}
+}
+
+// ---------------------------------------------------------------- second wave: C01 / C16 / C06
+
+func seqEntries(r *rand.Rand) ([]sarama.VerifDecgenSeqEntry, string) {
+	var es []sarama.VerifDecgenSeqEntry
+	var ts []string
+	seen := map[string]bool{}
+	for i, k := 0, r.Intn(4); i < k; i++ {
+		e := sarama.VerifDecgenSeqEntry{Topic: []string{"a", "b", "a-1"}[r.Intn(3)], Partition: int32(r.Intn(3)), Value: int32(pick(r, 0, 1, 41, 2147483647))}
+		key := fmt.Sprintf("%s|%d", e.Topic, e.Partition)
+		if seen[key] {
+			continue
+		}
+		seen[key] = true
+		es = append(es, e)
+		ts = append(ts, fmt.Sprintf("(seq_key %s %s %d, %s)", str("%s-%d"), str(e.Topic), e.Partition, cf.Z(int64(e.Value))))
+	}
+	return es, cf.List(ts)
+}
+
+func seqAfter(m map[string]int32, probes []sarama.VerifDecgenSeqEntry) string {
+	var ts []string
+	for _, e := range probes {
+		ts = append(ts, fmt.Sprintf("(%s, %d, %s)", str(e.Topic), e.Partition, cf.Z(int64(m[fmt.Sprintf("%s-%d", e.Topic, e.Partition)]))))
+	}
+	return cf.List(ts)
+}
+
+func runWave2(r *rand.Rand, n int, w01, w16, w06 *writer) {
+	for i := 0; i < n/4; i++ {
+		var closing, cur error
+		if r.Intn(3) == 0 {
+			closing = idErr(9)
+		}
+		hasTopic, hasEntry := r.Intn(4) != 0, r.Intn(3) != 0
+		if r.Intn(2) == 0 {
+			cur = idErr(4)
+		}
+		got := sarama.VerifDecgenNeedsRetry(closing, hasTopic, hasEntry, cur)
+		model := cur
+		if !hasTopic || !hasEntry {
+			model = nil
+		}
+		w01.add("needs_retry", fmt.Sprintf("(gerr_eqb (needs_retry %s %s) %s)", gerr(closing), gerr(model), gerr(got)), []interface{}{closing != nil, hasTopic, hasEntry, cur != nil}, true)
+
+		es, mt := seqEntries(r)
+		epoch := int16(pick(r, 0, 1, 32767, -1))
+		topic, part := []string{"a", "b", "a-1", "c"}[r.Intn(4)], int32(r.Intn(3))
+		probes := append(append([]sarama.VerifDecgenSeqEntry{}, es...), sarama.VerifDecgenSeqEntry{Topic: topic, Partition: part})
+		sq, ep, after := sarama.VerifDecgenGetSeq(epoch, es, topic, part)
+		w01.add("get_and_increment_sequence_number", fmt.Sprintf("(seq_get_ok (get_and_increment_sequence_number %s %s %d %s) %s %s %s %s)", mt, str(topic), part, cf.Z(int64(epoch)),
+			str("%s-%d"), cf.Z(int64(sq)), cf.Z(int64(ep)), seqAfter(after, probes)), []interface{}{epoch, len(es), topic, part}, true)
+		ep2, after2 := sarama.VerifDecgenBumpEpoch(epoch, es)
+		w01.add("bump_epoch", fmt.Sprintf("(seq_bump_ok (bump_epoch %s %s) %s %s %s)", cf.Z(int64(epoch)), mt, str("%s-%d"), cf.Z(int64(ep2)), seqAfter(after2, es)), []interface{}{epoch, len(es)}, len(es) > 0)
+
+		bn := r.Intn(3) == 0
+		tn := bn || r.Intn(2) == 0
+		off, ts, md := pick(r, 0, 5, 1<<40), pick(r, -1, 0, 99), meta(r)
+		om, im, o2, t2, m2 := sarama.VerifDecgenAddBlock(bn, tn, "t", 2, off, ts, md)
+		w06.add("add_block", fmt.Sprintf("(add_block_ok (add_block %s 2 %s %s %s %s %s) %s %s %s %s %s)", str("t"), cf.Z(off), cf.Z(ts), str(md), cf.Bool(bn), cf.Bool(tn),
+			cf.Bool(om), cf.Bool(im), cf.Z(o2), cf.Z(t2), str(m2)), []interface{}{bn, tn, off, ts, md}, true)
+	}
+	tn, tf, nb := sarama.VerifDecgenRollOver()
+	w16.add("roll_over", fmt.Sprintf("(roll_over_ok (roll_over (Some tt) true) %s %s %s)", cf.Bool(tn), cf.Bool(tf), cf.Bool(nb)), []interface{}{}, true)
 }
 
 // ---------------------------------------------------------------- C19
@@ -336,6 +481,8 @@ func main() {
 	groups := flag.String("groups", "C06,C16,C01,C17,C19", "groups to run")
 	flag.Parse()
 	runs := map[string]func(*rand.Rand, int, *writer){"C06": runC06, "C16": runC16, "C01": runC01, "C17": runC17, "C19": runC19}
+	writers := map[string]*writer{}
+	var order []string
 	for gi, g := range strings.Split(*groups, ",") {
 		f := runs[g]
 		if f == nil {
@@ -348,8 +495,19 @@ func main() {
 		} else {
 			l = strings.ReplaceAll(l, "%G", g)
 		}
-		w := newWriter(*out, g, l)
-		f(rand.New(rand.NewSource(*seed*1000+int64(gi))), *n, w)
-		w.w.Close()
+		w := newWriter(*out, g, "From SV Require Import Gen.DecTypes2.\n"+l)
+		writers[g] = w
+		order = append(order, g)
+		rr := rand.New(rand.NewSource(*seed*1000 + int64(gi)))
+		f(rr, *n, w)
+		if g == "C17" {
+			runC17PartitionMessage(rr, *n, w)
+		}
+	}
+	if writers["C01"] != nil && writers["C16"] != nil && writers["C06"] != nil {
+		runWave2(rand.New(rand.NewSource(*seed*1000+77)), *n, writers["C01"], writers["C16"], writers["C06"])
+	}
+	for _, g := range order {
+		writers[g].w.Close()
 	}
 }
